@@ -323,3 +323,38 @@ def check_slot_readers(run, program, rule_prefix="F-CACHE"):
                                   f"{f.qualname} reads {slot}[{str_const(node.slice)!r}], state left behind by the last conversion (computed for that call's projection/periodic handling): "
                                   "what it returns now depends on which conversions ran before")
     return n
+
+
+def check_side_tables_total(run, program, slots, rule_prefix="F-CACHE"):
+    """a builder that writes a side table writes it on EVERY returning path: a table written only under a condition keeps the value
+    of an earlier conversion on the other paths (e.g. non-NaN indices of a projected build filtering the data of a later unprojected one)"""
+    from ..flow import enumerate_paths
+    n = 0
+    for f in program.all_functions():
+        if f.cls is not None and f.cls.name == "Grid":
+            continue
+        keys = {}
+        for st in iter_stmts(f.node.body):
+            if isinstance(st, ast.Assign):
+                for t in st.targets:
+                    if isinstance(t, ast.Subscript) and isinstance(t.value, ast.Attribute) and t.value.attr in slots and str_const(t.slice):
+                        keys[(t.value.attr, str_const(t.slice))] = st
+        if not keys:
+            continue
+        try:
+            paths = [p for p in enumerate_paths(f.node.body) if p.exit == "return" or p.exit == "fall"]
+        except Exception:
+            continue
+        for (slot, k), st in sorted(keys.items()):
+            n += 1
+            c = f"{f.key}:side-table-total:{slot}[{k}]"
+            missing = 0
+            for p in paths:
+                hit = any(isinstance(e, ast.Assign) and any(isinstance(t, ast.Subscript) and isinstance(t.value, ast.Attribute) and t.value.attr == slot and str_const(t.slice) == k for t in e.targets) for e in p.events)
+                if not hit:
+                    missing += 1
+            if missing:
+                run.violation(f"{rule_prefix}/side-table-total", c, where(f, st), f'{slot}["{k}"] is written on {len(paths) - missing} of {len(paths)} returning paths only: on the others the table of an earlier conversion (other projection) stays and is applied to this one')
+            else:
+                run.holds(f"{rule_prefix}/side-table-total", c, where(f, st), f"written on all {len(paths)} returning paths")
+    return n
